@@ -11,7 +11,7 @@ from .ctx import Ctx
 from .model import AnalysisError, FunctionInfo
 from .report import RuleResult
 from .terms import (Attr, BoundMethod, Call, ClassRef, Comp, Const, EnumMember, Evaluator, Ext, FuncRef, Ite, Loop, New,
-                    Op, Opaque, Outcome, Sub, Sym, Term, TupleT, alternatives, default_inline, guards_repr, norm_guards,
+                    Op, Opaque, Outcome, Sub, Sym, Term, TupleT, alternatives, default_inline, guards_repr, norm_guards, flat_guards,
                     walk)
 from .util import all_terms, call_name, call_recv, method_calls, none_test
 
@@ -85,7 +85,9 @@ def D1(ctx: Ctx) -> RuleResult:
 
 def _helpers(ctx: Ctx, r: RuleResult, pc, self_t: Term):
     def pol(fi: FunctionInfo, depth: int) -> bool:
-        return False
+        # private helpers of HplProperty that the per-position checks delegate to are looked through; the two leaf
+        # checks (loops) and everything outside the class stay calls
+        return fi.cls is pc and fi.name.startswith('_') and fi.name not in ('_check_refs_defined', '_check_duplicates') and default_inline(fi, depth)
     ev = Evaluator(ctx.model, inline=pol)
     avail = Sym('available')
 
@@ -203,16 +205,31 @@ def _helpers(ctx: Ctx, r: RuleResult, pc, self_t: Term):
         r.fail('HplEventDisjunction.__attrs_post_init__', 'missing: a channel may occur twice in one disjunction', ed.where)
     else:
         self_e = Sym('self', 'HplEventDisjunction')
-        outs = ev.run(pi, {'self': self_e})
-        src = ast.unparse(pi.node)
+        # the construction hook and the private methods it calls on self
+        funcs = [pi]
+        seen_f = {pi.key}
+        todo = [pi]
+        while todo:
+            f0 = todo.pop()
+            for n in ast.walk(f0.node):
+                if isinstance(n, ast.Call) and isinstance(n.func, ast.Attribute) and isinstance(n.func.value, ast.Name) and n.func.value.id == 'self':
+                    m2 = ed.resolve(n.func.attr)
+                    if m2 is not None and m2.key not in seen_f and m2.name.startswith('_'):
+                        seen_f.add(m2.key)
+                        funcs.append(m2)
+                        todo.append(m2)
         found = False
-        for o in outs:
-            for e in o.effects:
-                if isinstance(e, Loop):
-                    for rg, exc in e.raises:
-                        if 'HplSanityError' in repr(exc) and any(isinstance(t, Op) and t.op == 'in' and p for t, p in norm_guards(rg)):
-                            found = True
-        if found and 'simple_events()' in src and '.name' in src and ('.add(' in src or 'append' in src):
+        for f0 in funcs:
+            for o in Evaluator(ctx.model, inline=lambda fi, d: False).run(f0, {'self': self_e}):
+                for e in o.effects:
+                    if isinstance(e, Loop):
+                        over_all = any(isinstance(x, Call) and call_name(x) == 'simple_events' and call_recv(x) == self_e for x in walk(e.iter)) or \
+                            any(isinstance(x, Call) and call_name(x) == 'simple_events' and call_recv(x) == self_e for v in (o.env or {}).values() for x in walk(v))
+                        for rg, exc in e.raises:
+                            named = any(pol and isinstance(t, Op) and t.op == 'in' and isinstance(t.args[0], Attr) and t.args[0].name == 'name' for t, pol in norm_guards(rg))
+                            if 'HplSanityError' in repr(exc) and named and over_all:
+                                found = True
+        if found:
             r.ok('HplEventDisjunction: HplSanityError when a channel name repeats among simple_events()')
         else:
             r.fail('HplEventDisjunction.__attrs_post_init__:dup', 'duplicate-channel detection over simple_events() not found', pi.where)
@@ -235,11 +252,11 @@ def _helpers(ctx: Ctx, r: RuleResult, pc, self_t: Term):
         for v in qc.all_validators(fld):
             ps = v.params()
             val = Sym('value')
-            for o in ev.run(v, {ps[0]: self_q, ps[2]: val}):
+            for o in ctx.ev.run(v, {ps[0]: self_q, ps[2]: val}, self_cls=qc):
                 for e in o.effects:
                     if isinstance(e, Loop) and isinstance(e.iter, Call) and call_name(e.iter) == 'iterate' and call_recv(e.iter) == val:
                         for rg, exc in e.raises:
-                            if 'HplSanityError' in repr(exc) and any(pol and isinstance(t, Op) and t.op == '==' and Attr(self_q, 'variable') in t.args for t, pol in norm_guards(rg)):
+                            if 'HplSanityError' in repr(exc) and any(pol and isinstance(t, Op) and t.op == '==' and Attr(self_q, 'variable') in t.args for t, pol in flat_guards(rg)):
                                 walked = True
         if walked:
             r.ok(f'HplQuantifier.{fld}: every node of the sub-tree is compared with the bound variable')
@@ -248,19 +265,20 @@ def _helpers(ctx: Ctx, r: RuleResult, pc, self_t: Term):
     unused_ok = False
     for v in qc.all_validators('condition'):
         ps = v.params()
-        outs = ev.run(v, {ps[0]: self_q, ps[2]: Sym('value')})
+        outs = ctx.ev.run(v, {ps[0]: self_q, ps[2]: Sym('value')}, self_cls=qc)
         for o in outs:
             if o.kind != 'raise' or 'HplSanityError' not in repr(o.value):
                 continue
-            for t, pol in norm_guards(o.guards):
+            for t, pol in flat_guards(o.guards):
                 if isinstance(t, Opaque) and t.tag.startswith('loop:') and not pol:
                     cnt = t.tag[5:]
                     for e in o.effects:
                         if isinstance(e, Loop):
                             for pg, flow, binds, effs in e.paths:
                                 val = dict(binds).get(cnt)
-                                inc = isinstance(val, Op) and val.op == '+' and Opaque(f'loopvar:{cnt}') in val.args and Const(1) in val.args
-                                matches = any(pol2 and isinstance(g, Op) and g.op == '==' and (Attr(self_q, 'variable') in g.args or any(isinstance(a, Attr) and a.name == 'name' for a in g.args)) for g, pol2 in norm_guards(pg))
+                                inc = (isinstance(val, Op) and val.op == '+' and Opaque(f'loopvar:{cnt}') in val.args and Const(1) in val.args) or \
+                                    (isinstance(val, Const) and bool(val.value))
+                                matches = any(pol2 and isinstance(g, Op) and g.op == '==' and (Attr(self_q, 'variable') in g.args or any(isinstance(a, Attr) and a.name == 'name' for a in g.args)) for g, pol2 in flat_guards(pg))
                                 if inc and matches:
                                     unused_ok = True
     if not unused_ok:
@@ -308,7 +326,7 @@ def canonical_cells(ctx: Ctx) -> Dict[Tuple[str, str], Dict]:
                 return default_inline(f, depth)
             if f.module.name != 'hpl.rewrite' or depth > 4:
                 return False
-            return not any(isinstance(n, (ast.For, ast.While, ast.Try, ast.With)) for n in ast.walk(f.node))
+            return not any(isinstance(n, (ast.While, ast.Try, ast.With)) for n in ast.walk(f.node))
         cells = {}
         for P in ctx.model.cls('PatternType').enum_members:
             for S in ctx.model.cls('ScopeType').enum_members:
@@ -362,6 +380,17 @@ def D2(ctx: Ctx, rid: str = 'D2', sound_only: bool = False) -> RuleResult:
             continue
         cell_ok = True
         for comp, gs in products:
+            if len(comp.gens) == 1 and isinstance(comp.elt, Call) and call_name(comp.elt) == 'but' and not comp.elt.args and {k for k, _ in comp.elt.kwargs} == {'scope', 'pattern'}:
+                # a loop over a one-element literal was unrolled: a product with a singleton
+                kw = dict(comp.elt.kwargs)
+                each1 = Sym(f'each:{comp.gens[0][0]}')
+                fixed = [k for k, v in kw.items() if v != each1]
+                if len(fixed) == 1:
+                    fk = fixed[0]
+                    fgen = ('<fixed>', TupleT((kw[fk],), 'list'), ())
+                    kw[fk] = Sym('each:<fixed>')
+                    elt2 = Call(comp.elt.func, (), tuple((k, kw[k]) for k, _ in comp.elt.kwargs))
+                    comp = Comp(comp.kind, elt2, (fgen, comp.gens[0]) if fk == 'scope' else (comp.gens[0], fgen))
             if len(comp.gens) != 2:
                 r.fail(key + ':product', f'the result is not a two-level product: {str(comp)[:120]}', where)
                 cell_ok = False
